@@ -95,7 +95,7 @@ def run_unit_once(unit_name, canary=None, extra=(), suffix='', timeout=600, adde
     res['serves'] = built['unit'].get('serves', [])
     cmd = verus_cmd(path, extra)
     if canary is None and '--rlimit' not in cmd:
-        cmd += ['--rlimit', '20']      # head-room: the heaviest function (holder list selection) needs ~8 of the default 10
+        cmd += ['--rlimit', str(built['unit'].get('rlimit', 20))]      # head-room: the heaviest code function (holder list selection) needs ~8 of the default 10; the lemma-only unit u_compose asks for more
     if canary is not None:
         # a canary variant only has to show that its one `assert(false)` per function fails: no extra error search
         cmd[cmd.index('--multiple-errors') + 1] = '0'
